@@ -30,7 +30,8 @@ FN = ["field/generator.py:IncomprRandMeth.__init__", "field/generator.py:Incompr
 
 
 def _gen(ctx, dim, N):
-    mod = sym_model(ctx, dim, aniso=False, nugget=False)
+    # the model may carry a nugget: with add_nugget=False the generator returns the pure Kraichnan sum
+    mod = sym_model(ctx, dim, aniso=False, nugget=True)
     s = ctx.integer("seed", lo=1, hi=1000)
     ubar = ctx.real("u_mean")
     g = _q(IncomprRandMeth, mod, mean_velocity=ubar, mode_no=N, seed=s)
